@@ -27,4 +27,29 @@ theorem unset_iff_not_required (E : Env) (k : Kind) (r : Bool) : Sat E (.mk k r 
 theorem nan_escapes_bounds (E : Env) (mn mx : Option Num) (r : Bool) : Sat E (.mk (.float mn mx) r none) (.flt .nan) :=
   sat_float_nan E mn mx r
 
+/-- `float(i)` — what a `FloatField` holds for a whole number — is exact for every whole number of at most 53 bits
+    (beyond that the model rounds to 53 bits, ties to even, as CPython does; from 2^1024 − 2^970 on the conversion overflows) -/
+theorem float_of_int_exact (i : Int) (h : i.natAbs < 2 ^ 53) : intToFlt i = norm i 0 := by
+  by_cases h0 : i.natAbs = 0
+  · simp [intToFlt, h0]
+  · have hl := (Nat.log2_lt h0).2 h
+    have hb : i.natAbs.log2 + 1 ≤ 53 := by omega
+    simp [intToFlt, h0, hb]
+
+/-- a whole number given to a `FloatField` is never rejected for overflow below the binary64 range -/
+theorem float_field_takes_every_53_bit_int (E : Env) (i : Int) (h : i.natAbs < 2 ^ 53) :
+    floatRule E none none (.int i) = .ok (.flt (norm i 0)) := by
+  have hov : intOverflows i = false := by
+    unfold intOverflows
+    simp only [decide_eq_false_iff_not, Nat.not_le]
+    calc i.natAbs < 2 ^ 53 := h
+      _ ≤ 2 ^ 1024 - 2 ^ 970 := by decide +kernel
+  simp [floatRule, hov, checkBounds, float_of_int_exact i h]
+
+-- rounding to 53 bits, ties to even: tests on literals (the general statement is validated by the correspondence stream)
+example : intToFlt (2 ^ 53 + 1) = norm (2 ^ 52) 1 := by decide +kernel
+example : intToFlt (2 ^ 53 + 3) = norm (2 ^ 52 + 2) 1 := by decide +kernel
+example : intToFlt (-(2 ^ 53 + 1)) = norm (-(2 ^ 52)) 1 := by decide +kernel
+example : intToFlt (2 ^ 64 - 1) = norm 1 64 := by decide +kernel
+
 end Cinco.C05b
